@@ -21,6 +21,7 @@ type feat struct {
 	sameNameTwoTypes     bool // one type name bound to two different types in the case
 	namedUnionMember     bool // a union with a named member
 	typeValueRebinds     bool // a type value binds a name that the values bind to another type
+	namedAndBareMember   bool // a union with members n=T and T
 }
 
 func underSpec(t *TSpec) *TSpec {
@@ -68,6 +69,11 @@ func (f *feat) walkType(t *TSpec, depth int, names map[string]string) {
 			for _, e := range t.Elems {
 				if e.Kind == "named" {
 					f.namedUnionMember = true
+					for _, o := range t.Elems {
+						if o.Canon() == underSpec(e).Canon() {
+							f.namedAndBareMember = true
+						}
+					}
 				}
 			}
 		}
@@ -174,6 +180,10 @@ func classifyRT(cs *rtCase, res rtResult) string {
 	case res.class == "parse-error" && f.namedUnionMember && notInUnionNamedMember(msg):
 		return p + "short-typedef-under-decorator"
 	case res.class == "parse-error" && f.anyNamed && conflictDoubleName(msg):
+		return p + "short-typedef-under-decorator"
+	case res.class == "value-mismatch" && f.namedAndBareMember:
+		// the same mechanism when the union also has the bare type: the value is tagged as
+		// the bare member instead of the named one
 		return p + "short-typedef-under-decorator"
 	case res.class == "type-mismatch" && f.namedOverSameName:
 		return p + "named-over-same-name"
